@@ -54,6 +54,13 @@ CLAIMED.update({
    note="what value a lane computes is not decided; helpers that receive the lane as a parameter are judged at call sites; v_readfirstlane is the only exception (both ALUs); one defect (v_div_scale_f64 SDst) found and repaired by a fix: commit"),
 })
 
+CLAIMED.update({
+ "C04": dict(
+   text="Totality and determinism of decoding decided from the tables and the shape of amd/insts: the format table (mask/encoding consistency, overlap and specificity order, opcode fields) which makes format matching independent of map order and sort stability; the decode table of about 1000 rows evaluated from constant expressions (duplicates, field widths, VOP3b routing, dispatch coverage); every getOperand call site against the computed set of defined operand codes using an interval analysis of the code argument; per-format bounds of every buffer access; size accounting; error handling at the three callers. The inverse property decode(encode(d)) = d is value level and not decided.",
+   ref="4/C04", technique="constant-table evaluation from the type-checked syntax (TABLE), interval analysis on SSA (INTERVAL), dominance cuts (GUARD), decision-table evaluation of getOperand's switch",
+   note="field extraction positions versus the ISA manuals are not compared; two genuine defects (dropped getOperand errors, unguarded buf[:4]) found and repaired by a fix: commit"),
+})
+
 PENDING = {}
 
 NOT_APPLICABLE = {
